@@ -33,6 +33,7 @@ var (
 	flagYield    = flag.String("yield", "", "comma separated file base names (pkgname/file.go) that get statement-level yields")
 	flagSites    = flag.String("sites", "", "write the table of select sites/cases to this file")
 	flagVerbose  = flag.Bool("v", false, "verbose")
+	flagOwner    = flag.String("owner", "", "comma separated files (pkgname/file.go): mutable fields of struct types declared there are actor-owned; every access gets a detsim.Touch")
 	flagMapFn    = flag.String("mapfn", "MapKeys", "detsim function used for range-over-map (MapKeys | MapKeysSorted)")
 )
 
@@ -92,7 +93,14 @@ func main() {
 	}
 	var sites []string
 	nfiles := 0
+	ownerFiles := map[string]bool{}
+	for _, c := range strings.Split(*flagOwner, ",") {
+		if c != "" {
+			ownerFiles[c] = true
+		}
+	}
 	for _, p := range pkgs {
+		owned := ownedFields(p, ownerFiles)
 		for i, f := range p.Syntax {
 			name := p.CompiledGoFiles[i]
 			if !strings.HasSuffix(name, ".go") {
@@ -101,6 +109,7 @@ func main() {
 			r := &rewriter{pkg: p, file: f, fset: p.Fset, info: p.TypesInfo, constVar: constVar,
 				short: p.Name + "/" + filepath.Base(name)}
 			r.yield = yield[r.short]
+			r.owned = owned
 			r.run()
 			sites = append(sites, r.sites...)
 			if !r.changed {
@@ -146,6 +155,7 @@ type rewriter struct {
 	core      map[*ast.BlockStmt]int // generated block -> index of its core statement (for labels)
 	funcName  string
 	funcStack []string
+	owned     map[*types.Var]string // actor-owned mutable struct fields -> "Type.field"
 }
 
 func (r *rewriter) site(n ast.Node) string {
@@ -246,6 +256,9 @@ func (r *rewriter) run() {
 		}
 	}
 
+	if len(r.owned) > 0 {
+		r.insertTouches()
+	}
 	if r.yield {
 		// on the original tree, before any generated code exists: a preemption
 		// point must never sit between detsim.Select and the real operation
@@ -798,4 +811,220 @@ func (r *rewriter) insertYields() {
 		return true
 	})
 	r.changed = true
+}
+
+// ownedFields: for the struct types declared in the owner files, the fields
+// that are mutated somewhere in the package after construction (assigned,
+// incremented, map-indexed on the left, deleted from).
+func ownedFields(p *packages.Package, ownerFiles map[string]bool) map[*types.Var]string {
+	if len(ownerFiles) == 0 {
+		return nil
+	}
+	fieldOwner := map[*types.Var]string{}
+	for i, f := range p.Syntax {
+		short := p.Name + "/" + filepath.Base(p.CompiledGoFiles[i])
+		if !ownerFiles[short] {
+			continue
+		}
+		for _, d := range f.Decls {
+			gd, ok := d.(*ast.GenDecl)
+			if !ok || gd.Tok != token.TYPE {
+				continue
+			}
+			for _, sp := range gd.Specs {
+				ts := sp.(*ast.TypeSpec)
+				obj, _ := p.TypesInfo.Defs[ts.Name].(*types.TypeName)
+				if obj == nil {
+					continue
+				}
+				st, ok := obj.Type().Underlying().(*types.Struct)
+				if !ok {
+					continue
+				}
+				for k := 0; k < st.NumFields(); k++ {
+					fieldOwner[st.Field(k)] = ts.Name.Name + "." + st.Field(k).Name()
+				}
+			}
+		}
+	}
+	mutated := map[*types.Var]string{}
+	mark := func(e ast.Expr) {
+		for {
+			switch x := e.(type) {
+			case *ast.ParenExpr:
+				e = x.X
+				continue
+			case *ast.IndexExpr:
+				e = x.X
+				continue
+			case *ast.StarExpr:
+				e = x.X
+				continue
+			}
+			break
+		}
+		if se, ok := e.(*ast.SelectorExpr); ok {
+			if sel := p.TypesInfo.Selections[se]; sel != nil && sel.Kind() == types.FieldVal {
+				if v, ok := sel.Obj().(*types.Var); ok {
+					if name, ok := fieldOwner[v]; ok {
+						mutated[v] = name
+					}
+				}
+			}
+		}
+	}
+	for _, f := range p.Syntax {
+		ast.Inspect(f, func(n ast.Node) bool {
+			switch x := n.(type) {
+			case *ast.AssignStmt:
+				for _, l := range x.Lhs {
+					mark(l)
+				}
+			case *ast.IncDecStmt:
+				mark(x.X)
+			case *ast.CallExpr:
+				if id, ok := x.Fun.(*ast.Ident); ok && id.Name == "delete" && len(x.Args) == 2 {
+					mark(x.Args[0])
+				}
+			}
+			return true
+		})
+	}
+	return mutated
+}
+
+// insertTouches puts detsim.Touch(site, "Type.field", receiver, isWrite) before
+// every statement that mentions an actor-owned mutable field (original tree,
+// before any other rewrite).  Nested statement lists get their own touches.
+func (r *rewriter) insertTouches() {
+	type acc struct {
+		name  string
+		recv  ast.Expr
+		write bool
+	}
+	pure := func(e ast.Expr) bool {
+		for {
+			switch x := e.(type) {
+			case *ast.Ident:
+				return true
+			case *ast.SelectorExpr:
+				e = x.X
+			case *ast.ParenExpr:
+				e = x.X
+			case *ast.StarExpr:
+				e = x.X
+			default:
+				return false
+			}
+		}
+	}
+	collect := func(stmt ast.Stmt) []acc {
+		var out []acc
+		writes := map[*ast.SelectorExpr]bool{}
+		markW := func(e ast.Expr) {
+			for {
+				switch x := e.(type) {
+				case *ast.ParenExpr:
+					e = x.X
+					continue
+				case *ast.IndexExpr:
+					e = x.X
+					continue
+				case *ast.StarExpr:
+					e = x.X
+					continue
+				}
+				break
+			}
+			if se, ok := e.(*ast.SelectorExpr); ok {
+				writes[se] = true
+			}
+		}
+		// first pass: which selectors are written by this statement itself
+		switch x := stmt.(type) {
+		case *ast.AssignStmt:
+			for _, l := range x.Lhs {
+				markW(l)
+			}
+		case *ast.IncDecStmt:
+			markW(x.X)
+		case *ast.ExprStmt:
+			if c, ok := x.X.(*ast.CallExpr); ok {
+				if id, ok := c.Fun.(*ast.Ident); ok && id.Name == "delete" && len(c.Args) == 2 {
+					markW(c.Args[0])
+				}
+			}
+		}
+		ast.Inspect(stmt, func(n ast.Node) bool {
+			switch x := n.(type) {
+			case *ast.BlockStmt:
+				return false // nested lists are handled on their own
+			case *ast.FuncLit:
+				return false
+			case *ast.CaseClause:
+				for _, e := range x.List {
+					ast.Inspect(e, func(ast.Node) bool { return true })
+				}
+				return false
+			case *ast.CommClause:
+				return false
+			case *ast.SelectorExpr:
+				if sel := r.info.Selections[x]; sel != nil && sel.Kind() == types.FieldVal {
+					if v, ok := sel.Obj().(*types.Var); ok {
+						if name, ok := r.owned[v]; ok && pure(x.X) {
+							out = append(out, acc{name, x.X, writes[x]})
+						}
+					}
+				}
+			}
+			return true
+		})
+		return out
+	}
+	doList := func(list []ast.Stmt) []ast.Stmt {
+		var out []ast.Stmt
+		for _, s := range list {
+			if _, ok := s.(*ast.LabeledStmt); !ok {
+				seen := map[string]bool{}
+				for _, a := range collect(s) {
+					key := a.name
+					if a.write {
+						key += "/w"
+					}
+					if seen[key] {
+						continue
+					}
+					seen[key] = true
+					w := "false"
+					if a.write {
+						w = "true"
+					}
+					out = append(out, &ast.ExprStmt{X: call(ds("Touch"), str(r.site(s)), str(a.name), a.recv, ast.NewIdent(w))})
+					r.changed = true
+				}
+			}
+			out = append(out, s)
+		}
+		return out
+	}
+	clauseBlocks := map[*ast.BlockStmt]bool{}
+	ast.Inspect(r.file, func(n ast.Node) bool {
+		switch x := n.(type) {
+		case *ast.SelectStmt:
+			clauseBlocks[x.Body] = true
+		case *ast.SwitchStmt:
+			clauseBlocks[x.Body] = true
+		case *ast.TypeSwitchStmt:
+			clauseBlocks[x.Body] = true
+		case *ast.BlockStmt:
+			if !clauseBlocks[x] {
+				x.List = doList(x.List)
+			}
+		case *ast.CaseClause:
+			x.Body = doList(x.Body)
+		case *ast.CommClause:
+			x.Body = doList(x.Body)
+		}
+		return true
+	})
 }
